@@ -759,6 +759,10 @@ pub fn anchors() -> Vec<Ty> {
         vars.push(var(Named, vec![prim(U16), fvec(prim(U8), L::U8)]));
         v.push(senum("AEnum258", TagTy::U16, vars, false, false, Some(1)));
     }
+    // items at least as large as the vector's alignment, but not a multiple of it
+    v.push(fvec(Ty::Array(b(prim(U8)), 3), L::U16));
+    v.push(fvec(Ty::Array(b(prim(U8)), 5), L::U32));
+    v.push(fvec(Ty::Array(b(prim(U16)), 3), L::U32));
     // an unaligned sized prefix in front of a FlexVec whose offset type is more aligned than its items
     v.push(sstruct("AFlexTailOdd", vec![prim(U8), flex(fvec(prim(U8), L::U8), L::U16)], false, false, true));
     v.push(sstruct("AFlexTailOdd4", vec![prim(U16), prim(U8), flex(Ty::FlatString(L::U8), L::U32)], false, false, true));
